@@ -163,4 +163,6 @@ def r89(F):
     return r
 
 
-RULES = [r13l, r40, r41, r42, r89]
+from .c04 import r76x as _r76x
+
+RULES = [r13l, r40, r41, r42, r89, _r76x]
